@@ -79,7 +79,10 @@ impl Parser {
             ));
         }
 
+        // a select list that needs nothing from the file system yields one row, not one per entry;
+        // the rows of a GROUP BY query are its groups, however many there are
         if limit == 0
+            && grouping_fields.is_empty()
             && fields
                 .iter()
                 .all(|expr| expr.get_required_fields().is_empty())
